@@ -507,11 +507,13 @@ impl<'a> G<'a> {
                     self.feat("nilary-tail-after-step");
                     let f = self.fresh("nl");
                     let step = self.int(1);
-                    let form = match self.r.below(5) {
+                    let form = match self.r.below(7) {
                         0 => format!("{f} = #{{ !#'int, ^ }}"),
                         1 => format!("{f} = #{{ {step}, ^ }}"),
                         2 => format!("{f} = #{{ !#'int =sv, [sv, {step}] __integer_add__, ^ }}"),
                         3 => format!("{f} = #{{ {step} {{ | =0 => 1 | ~ }}, [~, 1] __integer_add__ ^ }}"),
+                        4 => format!("{f} = #{{ ! [#'int, #'bin] {{ | ='int => 1 | ='bin => 2 }}, ^ }}"),
+                        5 => format!("{f} = #{{ !#'int =sm, [sm, {step}] __integer_add__ =sq, @#{{ 7 }}, ^ }}"),
                         _ => format!("{f} = #{{ {{ !#'int =sm, sm {{ | =0 => Stop | Go }} }} {{ | =Stop => 0 | ^ }} }}"),
                     };
                     out.push(form);
